@@ -595,6 +595,46 @@ def check_block_exports(ev, fails):
                         ev.case(key=["block-exports", form, site, shadow, strict, rel], nontrivial=True, labels=("block-exports:" + form,))
 
 
+# ---- <%include> takes page arguments from the context it is written in, not from the render() keywords ---------------------
+def check_include_context(ev, fails):
+    """expectations by construction: a top-level def called by name from the body sees the body's assignments and the page
+    arguments (C04); an <%include> written in that def hands exactly those values to the target's <%page> arguments"""
+    from mako.lookup import TemplateLookup
+
+    T = {
+        "/inc/leaf.html": "<%page args=\"title='leaf-default', extra='x'\"/>[arg=${title} ctx=${context.get('title', 'unset')} extra=${extra}]",
+        "/inc/a.html": "<% title = 'assigned' %><%def name=\"show()\"><%include file=\"leaf.html\"/></%def>A:${show()}",
+        "/inc/mid.html": "<%page args=\"title='mid-default'\"/><%def name=\"show()\"><%include file=\"leaf.html\" args=\"extra='y'\"/></%def>mid:${show()}",
+        "/inc/b.html": "B:<%include file=\"mid.html\" args=\"title='from-outer'\"/>",
+        "/inc/c.html": "C:<%include file=\"leaf.html\"/>",
+        "/inc/d.html": "D:<%include file=\"leaf.html\" args=\"title='explicit'\"/>",
+        "/inc/e.html": "<% title = 'assigned' %>E:<%include file=\"leaf.html\"/>",
+    }
+    for kwargs, tag in (({}, "no keywords"), ({"title": "kw"}, "render(title='kw')")):
+        kw = kwargs.get("title")
+        want = {
+            "/inc/a.html": "A:[arg=assigned ctx=assigned extra=x]",
+            "/inc/b.html": "B:mid:[arg=from-outer ctx=from-outer extra=y]",
+            "/inc/c.html": "C:[arg=%s ctx=%s extra=x]" % (kw or "leaf-default", kw or "unset"),
+            "/inc/d.html": "D:[arg=explicit ctx=%s extra=x]" % (kw or "unset"),
+        }
+        for strict in (False, True):
+            lk = TemplateLookup(strict_undefined=strict)
+            for u, src in T.items():
+                lk.put_string(u, src)
+            for u, exp in sorted(want.items()):
+                case = {"part": "include-context", "uri": u, "kwargs": kwargs, "strict": strict}
+                try:
+                    got = lk.get_template(u).render_unicode(**kwargs)
+                except Exception as e:  # noqa: BLE001
+                    got = "%s: %s" % (type(e).__name__, str(e)[:100])
+                if got != exp:
+                    f = Failure(case, "%s, %s (strict_undefined=%s): expected %r, got %r\n%s" % (u, tag, strict, exp, got,
+                                "\n".join("--- %s ---\n%s" % kv for kv in sorted(T.items()))), "include-context")
+                    fails.setdefault(f.key, f)
+                ev.case(key=["include-context", u, tag, strict], nontrivial=u in ("/inc/a.html", "/inc/b.html"), labels=("include-context",))
+
+
 def shard(task):
     seed, n = task
     core.setup_repo()
@@ -607,6 +647,7 @@ def run(ctx):
     fails = {}
     core.setup_repo()
     check_block_exports(ctx.ev, fails)
+    check_include_context(ctx.ev, fails)
     for f in fails.values():
         ctx.fail(f)
     n = ctx.pick(600, 10000)
@@ -615,6 +656,10 @@ def run(ctx):
 
 def replay(case):
     core.setup_repo()
+    if case.get("part") == "include-context":
+        fails = {}
+        check_include_context(core.Evidence(), fails)
+        return next((f for f in fails.values() if f.case == case), None)
     if case.get("part") == "block-exports":
         fails = {}
         check_block_exports(core.Evidence(), fails)
